@@ -83,7 +83,8 @@ def ref_match(pattern, abspath, isdir):
 
 def pattern_forms():
     return ["k.cmake", "e1.cmake", "y", "x1/", "e*.cmake", "x*/", "*.cmake", "**/deep/", "deep", "ABSF:e2.cmake",
-            "ABSF:x1/m.cmake", "ABSD:x2/", "ABSD:y/deep/", "m.cmake", "INPUT/", "in"]
+            "ABSF:x1/m.cmake", "ABSD:x2/", "ABSD:y/deep/", "m.cmake", "INPUT/", "in", "ANCESTOR/", "ABSGLOB:i*/k.cmake",
+            "ABSGLOB:*/x2/"]
 
 
 def resolve(p, boxroot):
@@ -92,6 +93,10 @@ def resolve(p, boxroot):
         return os.path.join(base, p[5:])
     if p == "INPUT/":
         return base + "/"
+    if p == "ANCESTOR/":                       # the directory that contains the input directory
+        return os.path.dirname(base) + "/"
+    if p.startswith("ABSGLOB:"):               # a glob in a component at/above the input directory
+        return os.path.join(os.path.dirname(base), p[8:])
     return p
 
 
